@@ -14,7 +14,10 @@ From Aquatic Require Import Bep15 UdpCodecFacts.
 Local Open Scope N_scope.
 
 Inductive sys_step :=
-| SysStep (ip : string) (port now0 now1 : N) (dgram : string) (replies : list string) (strays : N).
+| SysStep (ip : string) (port now0 now1 : N) (dgram : string) (replies : list string) (strays : N)
+(* the access list file was rewritten so that the case's listed torrents are [acl] (an unreadable
+   line added when [ok] = false) and the process got SIGUSR1 *)
+| SysReload (acl : list string) (ok : bool).
 
 Definition sys_case : Type :=
   bool * nat * nat * N * acl_mode * list string * Z * N * list (string * N) * list sys_step.
@@ -53,6 +56,7 @@ Definition backend_of (uring : bool) (ip : list N) : backend :=
 
 Definition step_ok_at (uring : bool) (cfg : hconf) (mac : list N -> N) (interval : Z) (s : sys_step) (now : N) : bool :=
   match s with
+  | SysReload _ _ => true
   | SysStep ip port _ _ dgram replies strays =>
       let from := SA (bytes_of_hex ip) port in
       let bytes := bytes_of_hex dgram in
@@ -78,6 +82,7 @@ Definition step_ok_at (uring : bool) (cfg : hconf) (mac : list N -> N) (interval
 (* the tracker's clock is known to lie between the two markers *)
 Definition step_ok uring cfg mac interval (s : sys_step) : bool :=
   match s with
+  | SysReload _ _ => true
   | SysStep _ _ now0 now1 _ _ _ => step_ok_at uring cfg mac interval s now0 || step_ok_at uring cfg mac interval s now1
   end.
 
@@ -122,10 +127,13 @@ Fixpoint mon_indexed (max_resp : nat) (r : rstate) (h : list (N * (uop * uout)))
       if mon_op 3 max_resp r op out then mon_indexed max_resp (fst (r_step r op)) t else Some i
   end.
 
-Definition answered (s : sys_step) : bool := match s with SysStep _ _ _ _ _ [] _ => false | _ => true end.
+Definition answered (s : sys_step) : bool := match s with SysStep _ _ _ _ _ [] _ => false | SysReload _ _ => false | _ => true end.
 Definition is_connect (s : sys_step) : bool :=
-  match s with SysStep _ _ _ _ d _ _ =>
-    match parse_request LY (bytes_of_hex d) 1 with POk (UdpCodec.RConnect _) => true | _ => false end end.
+  match s with
+  | SysStep _ _ _ _ d _ _ =>
+    match parse_request LY (bytes_of_hex d) 1 with POk (UdpCodec.RConnect _) => true | _ => false end
+  | SysReload _ _ => false
+  end.
 
 (* code / 4: 0 = agreement, else 1 + index of the first step that breaks the contract (or whose
    reply contents differ from the reference tracker's); flags 3 = the case has an answered
@@ -134,12 +142,14 @@ Definition udp_sys_code (c : sys_case) : N :=
   let '(uring, max_scrape, max_resp, age, mode, acl, interval, dflt, tbl, steps) := c in
   let cfg := mkHconf max_scrape age mode (map (fun h => be_dec (bytes_of_hex h)) acl) in
   let mac := table_mac_d dflt tbl in
-  let fix go (i : N) (l : list sys_step) : N :=
+  let fix go (i : N) (cfg : hconf) (l : list sys_step) : N :=
     match l with
     | [] => 0
-    | s :: t => if step_ok uring cfg mac interval s then go (N.succ i) t else N.succ i
+    | SysReload acl' ok :: t =>
+        go (N.succ i) (if ok then mkHconf max_scrape age mode (map (fun h => be_dec (bytes_of_hex h)) acl') else cfg) t
+    | s :: t => if step_ok uring cfg mac interval s then go (N.succ i) cfg t else N.succ i
     end in
-  let contract := if table_functional tbl && table_injective tbl then go 0 steps else 1 in
+  let contract := if table_functional tbl && table_injective tbl then go 0 cfg steps else 1 in
   let bad := if N.eqb contract 0
              then match mon_indexed max_resp rinit (swarm_history cfg steps) with None => 0 | Some i => N.succ i end
              else contract in
